@@ -302,6 +302,51 @@ def run(pm, ctx):
         # ---- e admissibility
         admissibility(ctx, unit, b, site)
 
+    # ------------------------------------------------------------------ d (completeness): a candidate that beats the running best is never lost
+    from ..e7_order import weak_orderings, eval_order
+    groups = {}
+    for b in bundles:
+        if b.gain_node is None:
+            continue
+        non_order = tuple(norm_src(t) + ("" if pol else " [not]") for t, pol in b.guards if "best_split.gain" not in norm_src(t) and not _is_order(t, {"best_split.gain"} | {
+            norm_src(x.gain_node) for x in bundles if x.gain_node is not None}))
+        groups.setdefault(non_order, []).append(b)
+    for key, grp in groups.items():
+        gains = []
+        for b in grp:
+            g_ = norm_src(b.gain_node)
+            if g_ not in gains:
+                gains.append(g_)
+        atoms = gains + ["best_split.gain"]
+        site = f"compute_all_splits: candidates {gains} are not lost"
+        if len(atoms) > 5:
+            ctx.unrecognised("C08-d", site, "too many candidates in one block")
+            continue
+        lost = None
+        try:
+            for ranks in weak_orderings(len(atoms)):
+                val = dict(zip(atoms, ranks))
+                top = max(val[g_] for g_ in gains)
+                if top <= val["best_split.gain"]:
+                    continue
+                fired = False
+                for b in grp:
+                    og = [(t, pol) for t, pol in b.guards if _is_order(t, set(atoms))]
+                    if all(eval_order(t, val) == pol for t, pol in og) and val[norm_src(b.gain_node)] == top:
+                        fired = True
+                if not fired:
+                    lost = val
+                    break
+        except NotOrderPredicate as e:
+            ctx.unrecognised("C08-d", site, f"guards are not pure order predicates: {e}")
+            continue
+        if lost is None:
+            ctx.ok("C08-d", site, "whenever the largest candidate exceeds the running best it is recorded")
+        else:
+            b0 = grp[0]
+            ctx.violation("C08-d", unit.relpath, "compute_all_splits", norm_src(b0.stmts[0]), f"with the ordering {lost} the largest candidate exceeds the running best but no "
+                          f"bundle records it: the best split can be missed", line=b0.stmts[0].lineno, site=site)
+
     # ------------------------------------------------------------------ g: incremental stocks along the scan
     incremental_stocks(pm, ctx, unit, fb)
 
@@ -782,4 +827,5 @@ def controls(pm, tier):
     for c in out:
         if c["apply"].__name__ == "apply":
             c["predesugared"] = True
+    mut("        if left_star > best_split.gain or right_star > best_split.gain:", "        if left_star > best_split.gain:", "C08-d", "right single-star candidate only considered when the left one wins")
     return out
